@@ -703,6 +703,16 @@ func (e *SEnv) evalCall(n *SCall) Val {
 			return specBool(uf("fnres0_Bool", SBool, as...))
 		}
 		return specInt(uf("fnres0_Int", SInt, as...))
+	case "unboxed": // unboxed(x): the (non-pointer) value that was put into the interface value x in this function
+		iv := e.eval(n.Args[0])
+		if iv.T == nil || !isIface(iv.T) || len(iv.C) != 2 {
+			sfail("unboxed: interface value expected")
+		}
+		bv, ok := e.st.boxes[iv.C[1].S]
+		if !ok {
+			sfail("unboxed: the dynamic value of the interface is not known here")
+		}
+		return bv
 	case "litof": // litof(f): k when the func value f is the k-th function literal ($k) of the function under contract, 0 for any other function value
 		fv := e.eval(n.Args[0])
 		if fv.Clo == nil || fv.Clo.Fn == nil {
